@@ -35,6 +35,8 @@ CAT = {
     'struct-ne': ('=bI, @H', {}, [('int', 8), ('uint' + NE, 32), ('uint' + NE, 16)]),
     'struct-mixed': ('uint:4, >h, bool', {}, [('uint', 4), ('intbe', 16), ('bool', 1)]),
     'struct-factor': ('2*<B, 2*>2H', {}, [('uint', 8), ('uint', 8)] + [('uintbe', 16)] * 4),
+    'struct-factor-multi': ('2*>bH, 2*(<hB)', {}, [('int', 8), ('uintbe', 16)] * 2 + [('intle', 16), ('uint', 8)] * 2),
+    'factor-in-bracket-struct': ('2*(uint:3, 2*>Bb)', {}, ([('uint', 3)] + [('uint', 8), ('int', 8)] * 2) * 2),
     'endian': ('uintle:16, intbe:24, uintne:8, intle:8', {}, [('uintle', 16), ('intbe', 24), ('uint' + NE, 8), ('intle', 8)]),
     'text': ('hex:8, bin:3, oct:6', {}, [('hex', 8), ('bin', 3), ('oct', 6)]),
     'bytes-bits': ('bytes:2, bits:5, bytes1', {}, [('bytes', 16), ('bits', 5), ('bytes', 8)]),
